@@ -1,4 +1,5 @@
 import H3.Model.FrameStream
+import H3.Gen.ReqArms
 /-! Model of the receive side of a request stream (`h3/src/connection.rs`
     `RequestStream::{poll_recv_data,poll_recv_trailers}`, `h3/src/server/request.rs`
     `resolve_request`/`accept_with_frame`/`resolve`, `h3/src/client/stream.rs` `recv_response`) and of
@@ -242,6 +243,25 @@ def pollRecvTrailers (S : Src σ) (H : Hdr) (st : St σ) : Res × St σ :=
   match st.trailers with
   | some enc => trailersTail S H { st with trailers := none } enc
   | none => trailersFirst S H st
+
+/-- `RequestStream::poll_recv_trailers` as a whole, after the repair "recv_trailers answers an error
+    instead of panicking while a DATA payload is outstanding": `if self.stream.has_data()` — the body
+    has not been read to its end (`recv_data` has not answered `None`, or it failed inside a DATA
+    frame) — the call answers `StreamError { H3_FRAME_UNEXPECTED }` and touches nothing; otherwise
+    the function above (`pollRecvTrailers` = everything behind that guard).  In every state of the
+    documented pattern `has_data()` is false before `recv_trailers`, so there the two agree. -/
+def pollRecvTrailersG (S : Src σ) (H : Hdr) (st : St σ) : Res × St σ :=
+  if S.hasData st.src then (.errStream CODE_H3_FRAME_UNEXPECTED, st) else pollRecvTrailers S H st
+
+/-- `poll_recv_trailers` as the source under translation has it: with the guard when the generated
+    table says the source has one (`H3.Gen.ReqArms.trailersGuard`, re-read on every run), without
+    it otherwise.  The scenario machine below (`Sim`, what the `req` engine executes, also outside
+    the documented pattern) calls this one, so the driver follows the tree that is being checked;
+    `H3.GenAgree.Req.trailersGuard_agrees` / `pollRecvTrailersT_eq` tie it to `pollRecvTrailersG`. -/
+def pollRecvTrailersT (S : Src σ) (H : Hdr) (st : St σ) : Res × St σ :=
+  match H3.Gen.ReqArms.trailersGuard with
+  | some c => if S.hasData st.src then (.errStream c, st) else pollRecvTrailers S H st
+  | none => pollRecvTrailers S H st
 
 /-! ### The documented call pattern
 
@@ -511,7 +531,7 @@ def attempt (H : Hdr) (m : Sim) (c : Call) : Nat → Option Sim
       let (r, st) := pollRecvData fsSrc m.fuel m.st
       if r = .pending then none else some (finish .rd r st m.resolved)
     | .rt =>
-      let (r, st) := pollRecvTrailers fsSrc H m.st
+      let (r, st) := pollRecvTrailersT fsSrc H m.st
       if r = .pending then none else some (finish .rt r st m.resolved)
     | .rda =>
       let (r, st) := pollRecvData fsSrc m.fuel m.st
